@@ -170,6 +170,15 @@ def run(prog, tier) -> Result:
                     d_ = st.norm(d_)
                     if not d_.is_zero():
                         deltas.append(d_)
+                if disperse and not deltas:
+                    # dispersal was asked for (explicitly or by default): a remainder that is known to be non-zero
+                    # on this path must have been handed out quantum by quantum
+                    rem0__ = a_self
+                    for i in range(n):
+                        rem0__ = rem0__ - st.rnd(0, (a_self * rs[i] / tot) / qn) * qn
+                    if known_truth(st, CmpV("!=", Num(st.norm(rem0__), "exact"), Num(RF.const(0), "int"))) is True:
+                        return ("rounding error not dispersed", f"remainder {st.norm(rem0__)!r} is non-zero on this path, "
+                                f"yet no portion was adjusted")
                 if deltas:
                     if not all(d_.equals(deltas[0]) for d_ in deltas):
                         return ("portions are adjusted by different amounts", repr(deltas))
@@ -209,6 +218,14 @@ def run(prog, tier) -> Result:
                     cr.run("R06.1", al, f"{n} {rk} ratio(s), disperse={disperse} [{fl}]",
                            setup(fl, n, rk, disperse), judge(fl, n, rk, disperse),
                            flag_kinds=("float-arith", "int-div", "none-operand", "none-attribute", "bad-unpack"))
+
+    # the default is to disperse the rounding error
+    def setup_default(c):
+        args, kw = setup("ref+quantum", 2, "number", True)(c)
+        return args[:2], kw
+    cr.run("R06.1", al, "2 number ratio(s), dispersal by default [ref+quantum]", setup_default,
+           judge("ref+quantum", 2, "number", True),
+           flag_kinds=("float-arith", "int-div", "none-operand", "none-attribute", "bad-unpack"))
 
     # ---- loop shape: the inductive step for any number of portions
     from ..anchors import _with_private_helpers
